@@ -191,6 +191,8 @@ def units(ctx):
         else yaqlized.setup_sinks)) for c in yaqlized.sink_contracts()]
     us += [contract_unit(c, world_setup=yaqlized.setup_settings)
            for c in yaqlized.settings_contracts()]
+    us += [contract_unit(c, world_setup=yaqlized.setup_yaqlize)
+           for c in yaqlized.yaqlize_contracts()]
     from props._common import bounded_unit
     us.append(bounded_unit(
         'bounded:c07-canary', 'c07_canary.py',
